@@ -1,6 +1,6 @@
 module verif/harness
 
-go 1.20
+go 1.21
 
 require github.com/awalterschulze/gominikanren v0.0.0
 
